@@ -24,7 +24,7 @@ def _class(t, k):
     ops = [s["op"] for s in t["steps"][1:k]]
     init = {x["c"] for x in t["steps"][0]["used"]}
     tags = []
-    if "turbo" in ops and "allocGap" in ops[ops.index("turbo"):]:
+    if "turbo" in ops and any(o in ("allocGap", "allocFree", "allocAgain") for o in ops[ops.index("turbo"):]):
         return "turbo-then-gap"        # the history class of the recorded turbo finding: what else the deck holds is irrelevant to it
     elif "turbo" in ops:
         tags.append("turbo")
